@@ -402,6 +402,19 @@ _m("C10", "Proved: canonicalization is idempotent (for the reference conversion 
    "Axioms: the four Flocq/standard-library axioms for the number theorems; structural theorems axiom-free. Vec::sort_by trusted as a stable sort.",
    "Coq proof (sorted permutation is unique for a total order; Flocq value-dependence of rounding; round trip of the rendering) + correspondence on canonical values, shuffles, respellings and index dumps")
 
+_m("C07", "Proved for every text of code points <= U+10FFFF: when strict parsing stops with an unexpected-character error, the "
+          "reported offset is the byte length of the LONGEST prefix that can still be extended to an RFC 8259 text (pure ABNF, any "
+          "\\uXXXX allowed): that prefix has a constructive completion, and the reported character (the input character at that "
+          "offset, none exactly at the end of input) makes it non-viable (completeness + prefix determinism + option independence). "
+          "For every option record and entry point every offset of every error variant is a character boundary. On ill-formed bytes "
+          "InvalidUtf8 is reported at the first ill-formed sequence and then the well-formed prefix alone is accepted or merely runs "
+          "out of input; otherwise the error is the one the prefix alone gives, strictly before that offset. Surrogate errors carry "
+          "the code units of the escape(s) and the exact span from after the backslash to the end of the (last) offending escape. "
+          "Correspondence compares variant, offsets, character, code units, position and span through parse_str and parse_slice.",
+   "No axioms.",
+   "Coq proof (Hoare-style invariant on consumed input; relational lockstep of two runs on inputs sharing a prefix; grammatical "
+   "completion of every failing configuration) + correspondence on all error fields")
+
 # in-Coq cross-check of extraction + glue (lib/coqx.py) for the families it has term builders for
 PROPS["C12"]["xcheck"] = "c12"
 PROPS["C13"]["xcheck"] = "c13"
